@@ -28,7 +28,7 @@ def _handler():
 # ---------------------------------------------------------------------------
 # V: the shared visitor machinery
 
-@family("V.children", props=["C11", "C12", "C13", "C20"],
+@family("V.children", props=["C11", "C12", "C13", "C20", "C01", "C03", "C08"],
         functions=[VIS + "::Node.ForEachChild", VIS + "::Node.AcceptVisitor", VIS + "::Visitor.v_Generic", VIS + "::DefaultVisitor.v_Default",
                    "nsl.ast::*._Traverse"])
 def v_children(R):
@@ -173,7 +173,7 @@ def c11_visit(R):
 
 def _stmt_trees(depth):
     """Statement source texts with the set-of-misplaced flag: (src, ok) ; ok = every break/continue inside a loop."""
-    leaves = [("break;", "B"), ("continue;", "B"), ("x = (x + 1);", "")]
+    leaves = [("break;", "B"), ("continue;", "B"), ("x = (x + 1);", ""), ("return x;", "")]
 
     def gen(d):
         if d == 0:
@@ -231,7 +231,7 @@ def _c11_e2e(R, part, parts, depth):
 
 def _mk_c11(part, parts=4):
     @family(f"C11.e2e.{part}", props=["C11"], functions=["nsl.Compiler::Compiler.Compile", "nsl.Compiler::Compiler.__RunPass", "nsl.Pass::MakePassFromVisitor"],
-            assumptions=["BOUNDED stand-in (never counted as proved): all statement trees of nesting depth <= 2 over {break, continue, assignment, block, if, if/else, while, for, do} compiled end to end"])
+            assumptions=["BOUNDED stand-in (never counted as proved): all statement trees of nesting depth <= 2 over {break, continue, assignment, return, block, if, if/else, while, for, do} compiled end to end"])
     def f(R, part=part):
         _c11_e2e(R, part, parts, 2)
     f.__doc__ = "Bounded end-to-end check: accept/reject of every statement tree up to nesting depth 2 equals 'all break/continue inside a loop'."
